@@ -288,14 +288,21 @@ class Explorer:
         fr = tuple(sorted((i, tuple(np.round(np.concatenate([np.ravel(x) for x in r[1:]]), 9))) for i, r in st["frozen"].items()))
         return (tuple(sorted(st["S"])), tuple(sorted(st["P"])), tuple(sorted(st["U"])), st["layer"], st["budget"], fr, st.get("total_cost"))
 
-    def step(self, st, ev):
-        alg = copy.deepcopy(self.tmpl)
-        rnd = st["layer"]
-        stepmc.inject(alg, st["S"], st["P"], st["U"], rnd=rnd)
-        if "total_cost" in st and hasattr(alg, "total_cost"):
-            alg.total_cost = st["total_cost"]
-        for i, r in st["frozen"].items():
-            stepmc.set_region_direct(alg, i, r)
+    def step(self, st, ev, live=None):
+        """one real run_one_step() from state `st` under event `ev`.  Default: a fresh copy of the template with the
+        state injected.  With `live` (an instance that has itself executed the whole history so far) the step runs on a
+        copy of that instance, nothing injected; the stepped instance is left in self.last_alg."""
+        if live is not None:
+            alg = copy.deepcopy(live)
+        else:
+            alg = copy.deepcopy(self.tmpl)
+            rnd = st["layer"]
+            stepmc.inject(alg, st["S"], st["P"], st["U"], rnd=rnd)
+            if "total_cost" in st and hasattr(alg, "total_cost"):
+                alg.total_cost = st["total_cost"]
+            for i, r in st["frozen"].items():
+                stepmc.set_region_direct(alg, i, r)
+        self.last_alg = alg
         active = stepmc.active_set(alg)
         h = self.bandit_width(alg) if self.bandit else self.layer_h(st["layer"])
         targets = {}
